@@ -399,7 +399,7 @@ func occupant(all map[string]*Content, key string) (*Content, bool) {
 
 func sortedParents(dst string) []string {
 	paths := []string{}
-	base := strings.Trim(dst, "/")
+	base := strings.Trim(NormalizeAbsoluteFilePath(dst), "/")
 	for {
 		base = filepath.Dir(base)
 		if base == "." {
